@@ -139,6 +139,22 @@ theorem specRecord_of_recordTok {cfg : Cfg} {r : Bytes} {tok : Tok}
   · rw [if_pos he] at h; cases h
   · rw [if_neg he] at h; rw [if_neg he, h]
 
+/-- two requests that differ in their bounds lists only -/
+structure SameButBofs (cfg cfg' : Cfg) : Prop extends SameTokens cfg cfg' where
+  replace : cfg'.replace = cfg.replace
+  complement : cfg'.complement = cfg.complement
+  join : cfg'.join = cfg.join
+  json : cfg'.json = cfg.json
+  fallback : cfg'.fallback = cfg.fallback
+
+theorem sameButBofs_with (cfg : Cfg) (bs' : List BoF) : SameButBofs cfg { cfg with bofs := bs' } :=
+  ⟨⟨rfl, rfl, rfl, rfl, rfl, rfl, rfl⟩, rfl, rfl, rfl, rfl, rfl⟩
+
+/-- the specification's view of two option sets that differ in their bounds only -/
+theorem sameButBofs_cfgOf (o : Opt) (bl' : UserBoundsList) :
+    SameButBofs (cfgOf o) (cfgOf { o with bounds := bl' }) :=
+  ⟨⟨rfl, rfl, rfl, rfl, rfl, rfl, rfl⟩, rfl, rfl, rfl, rfl, rfl⟩
+
 /-! ## `specLines` in stages -/
 
 /-- `-l` once the lines are known -/
@@ -307,5 +323,167 @@ theorem mapBounds_expand_eraseLast (n : Nat) : ∀ (l : List BoF),
   | .bound b :: t => by
     simp only [List.map_cons, eraseLast, mapBounds, mapBounds_expand_eraseLast n t]
     congr 2
+
+theorem emit_of_eraseLast_eq (cfg : Cfg) (tok : Tok) (sep : Nat → Bytes) (j : Bytes)
+    {l l' : List BoF} (h : l'.map eraseLast = l.map eraseLast) :
+    emit cfg tok sep j l' = emit cfg tok sep j l := by
+  rw [← emit_eraseLast cfg tok sep j l', h, emit_eraseLast]
+
+theorem countBounds_of_eraseLast_eq {l l' : List BoF} (h : l'.map eraseLast = l.map eraseLast) :
+    countBounds l' = countBounds l := by
+  rw [← countBounds_map_eraseLast l', h, countBounds_map_eraseLast]
+
+theorem complemented_eraseLast {cfg cfg' : Cfg} (h : SameButBofs cfg cfg') (n : Nat)
+    (he : cfg'.bofs.map eraseLast = cfg.bofs.map eraseLast) :
+    (complemented cfg' n).map eraseLast = (complemented cfg n).map eraseLast := by
+  unfold complemented
+  rw [h.complement]
+  cases cfg.complement with
+  | false => exact he
+  | true =>
+    simp only [if_true]
+    rw [← mapBounds_complement_eraseLast n cfg'.bofs, he, mapBounds_complement_eraseLast]
+
+theorem rewritten_eraseLast {cfg cfg' : Cfg} (h : SameButBofs cfg cfg') (n : Nat)
+    (he : cfg'.bofs.map eraseLast = cfg.bofs.map eraseLast) :
+    (rewritten cfg' n).map eraseLast = (rewritten cfg n).map eraseLast := by
+  have hc := complemented_eraseLast h n he
+  unfold rewritten
+  rw [h.json, h.chars]
+  cases (cfg.json || cfg.chars) with
+  | false => exact hc
+  | true =>
+    simp only [if_true]
+    rw [← mapBounds_expand_eraseLast n (complemented cfg' n), hc, mapBounds_expand_eraseLast]
+
+/-- **the specification never reads `is_last`**: two requests whose bounds lists differ in those
+    flags only print the same for every tokenised record -/
+theorem specBody_eraseLast {cfg cfg' : Cfg} (h : SameButBofs cfg cfg') (tok : Tok)
+    (he : cfg'.bofs.map eraseLast = cfg.bofs.map eraseLast) :
+    specBody cfg' tok = specBody cfg tok := by
+  have e1 : openBracket cfg' = openBracket cfg := by unfold openBracket; rw [h.json]
+  have e2 : closeBracket cfg' = closeBracket cfg := by unfold closeBracket; rw [h.json]
+  have e3 : specSep cfg' = specSep cfg := by unfold specSep; rw [h.chars, h.replace, h.delimiter]
+  have e4 : specJoiner cfg' = specJoiner cfg := by unfold specJoiner; rw [h.replace, h.delimiter]
+  unfold specBody
+  rw [h.onlyDelimited, h.complement,
+    countBounds_of_eraseLast_eq (complemented_eraseLast h tok.numFields he), e1, e2, e3, e4, h.eol,
+    emit_cfg_congr h.json h.join h.fallback,
+    emit_of_eraseLast_eq cfg tok _ _ (rewritten_eraseLast h tok.numFields he)]
+
+theorem specRecord_eraseLast {cfg cfg' : Cfg} (h : SameButBofs cfg cfg') (r : Bytes)
+    (he : cfg'.bofs.map eraseLast = cfg.bofs.map eraseLast) :
+    specRecord cfg' r = specRecord cfg r :=
+  specRecord_congr h.toSameTokens r fun tok _ => specBody_eraseLast h tok he
+
+theorem specLinesBody_eraseLast {cfg cfg' : Cfg} (h : SameButBofs cfg cfg') (tok : Tok)
+    (he : cfg'.bofs.map eraseLast = cfg.bofs.map eraseLast) :
+    specLinesBody cfg' tok = specLinesBody cfg tok := by
+  have hc := complemented_eraseLast h tok.numFields he
+  unfold specLinesBody
+  rw [emit_cfg_congr (cfg := { cfg with json := false }) (cfg' := { cfg' with json := false })
+      rfl h.join h.fallback, emit_of_eraseLast_eq _ tok _ _ hc, countBounds_of_eraseLast_eq hc,
+    h.eol, h.complement]
+
+theorem specLines_eraseLast {cfg cfg' : Cfg} (h : SameButBofs cfg cfg') (input : Bytes)
+    (he : cfg'.bofs.map eraseLast = cfg.bofs.map eraseLast) :
+    specLines cfg' input = specLines cfg input := by
+  rw [specLines_eq, specLines_eq, h.eol]
+  cases tokOfParts 1 (records cfg.eol input) with
+  | none => rfl
+  | some tok => exact specLinesBody_eraseLast h tok he
+
+/-! ## what `resolve` returns -/
+
+/-- a resolved bound lies inside the parts -/
+theorem resolve_range {b : UserBounds} {n lo hi : Nat} (h : resolve b n = some (lo, hi)) :
+    1 ≤ lo ∧ lo ≤ hi ∧ hi ≤ n := by
+  have h1 := resolve_some h
+  refine ⟨h1.2, h1.1, ?_⟩
+  unfold resolve at h
+  cases hl : resolveSide b.l n 1 with
+  | none => simp [hl] at h
+  | some lo' =>
+    cases hr : resolveSide b.r n n with
+    | none => simp [hl, hr] at h
+    | some hi' =>
+      simp only [hl, hr] at h
+      by_cases hc : lo' ≤ hi' ∧ 1 ≤ lo'
+      · rw [if_pos hc] at h
+        simp only [Option.some.injEq, Prod.mk.injEq] at h
+        obtain ⟨rfl, rfl⟩ := h
+        cases hbr : b.r with
+        | cont => rw [hbr] at hr; simp only [resolveSide, Option.some.injEq] at hr; omega
+        | some v =>
+          rw [hbr] at hr
+          exact (resolveSide_bounds (.some v) n n hi' (Or.inr (by simp)) hr).2
+      · rw [if_neg hc] at h; cases h
+
+/-! ## every run of the specification ends with exit status 0 or 1 -/
+
+theorem Run.seq_fail_of_clean {a : Run} (h : a.Clean) : a.seq Run.fail = ⟨a.out, .fail⟩ := by
+  obtain ⟨ao, as⟩ := a
+  rcases h with h | h <;> simp only at h <;> subst h <;> simp [Run.seq, Run.fail]
+
+theorem specBody_clean (cfg : Cfg) (tok : Tok) : (specBody cfg tok).Clean := by
+  unfold specBody
+  split
+  · exact Or.inl rfl
+  · split
+    · exact Or.inr rfl
+    · exact ((emit_clean _ _ _ _ _).seq (Or.inl rfl)).pre
+
+theorem specRecord_clean' (cfg : Cfg) (r : Bytes) : (specRecord cfg r).Clean := by
+  rw [specRecord_eq]
+  split
+  · split
+    · exact Or.inl rfl
+    · exact Or.inl rfl
+  · split
+    · exact Or.inr rfl
+    · exact specBody_clean cfg _
+
+theorem specRunRecords_clean' (cfg : Cfg) : ∀ (rs : List Bytes), (specRunRecords cfg rs).Clean
+  | [] => Or.inl rfl
+  | r :: t => (specRecord_clean' cfg r).seq (specRunRecords_clean' cfg t)
+
+/-! ## the rewriting of the bounds list, as a function of the list -/
+
+/-- `-m`, then the range expansion of `--json` / `-c`, applied to any list -/
+def rewriteList (cfg : Cfg) (n : Nat) (l : List BoF) : List BoF :=
+  let c := if cfg.complement then mapBounds (complementBound · n) l else l
+  if cfg.json || cfg.chars then mapBounds (expandBound · n) c else c
+
+theorem rewritten_eq (cfg : Cfg) (n : Nat) : rewritten cfg n = rewriteList cfg n cfg.bofs := rfl
+
+theorem rewriteList_append (cfg : Cfg) (n : Nat) (xs ys : List BoF) :
+    rewriteList cfg n (xs ++ ys) = rewriteList cfg n xs ++ rewriteList cfg n ys := by
+  unfold rewriteList
+  cases cfg.complement <;> cases (cfg.json || cfg.chars) <;> simp [mapBounds_append]
+
+/-- a bound that does not resolve goes through the rewriting untouched (but for `is_last`) -/
+theorem rewriteList_unresolved (cfg : Cfg) (n : Nat) (b : UserBounds) (h : resolve b n = none) :
+    ∃ b', rewriteList cfg n [.bound b] = [.bound b'] ∧ resolve b' n = none ∧
+      b'.fallback = b.fallback := by
+  have h' : resolve { b with isLast := false } n = none := h
+  unfold rewriteList
+  cases cfg.complement <;> cases (cfg.json || cfg.chars)
+  · exact ⟨b, by simp, h, rfl⟩
+  · exact ⟨{ b with isLast := false }, by simp [mapBounds, expandBound, h], h', rfl⟩
+  · exact ⟨{ b with isLast := false }, by simp [mapBounds, complementBound, h], h', rfl⟩
+  · exact ⟨{ b with isLast := false },
+      by simp [mapBounds, complementBound, expandBound, h, h'], h', rfl⟩
+
+theorem countBounds_complemented_pos (cfg : Cfg) (n : Nat) (pre post : List BoF) (b : UserBounds)
+    (hb : cfg.bofs = pre ++ .bound b :: post) (h : resolve b n = none) :
+    countBounds (complemented cfg n) ≠ 0 := by
+  unfold complemented
+  rw [hb]
+  cases cfg.complement with
+  | false => simp [countBounds_append, countBounds]
+  | true =>
+    simp only [if_true]
+    rw [mapBounds_append]
+    simp [mapBounds, complementBound, h, countBounds_append, countBounds]
 
 end Tuc.Spec
